@@ -86,6 +86,46 @@ func vFSFailWrites(path string) {
 	}
 }
 
+// vFSDisarm ends fault injection (the operation under test is over).
+func vFSDisarm() {
+	var rl syscall.Rlimit
+	if syscall.Getrlimit(syscall.RLIMIT_FSIZE, &rl) == nil && rl.Cur != rl.Max {
+		rl.Cur = rl.Max
+		_ = syscall.Setrlimit(syscall.RLIMIT_FSIZE, &rl)
+	}
+}
+
 func vFSFaulted() bool { return vIn("fault.armed") != 0 }
 
 func vFSFailOpen(kind string) {}
+
+// ---- cancellation: under the engine the channel closes at a symbolic poll; natively the verif-tagged poll
+// hook of the repository closes it at the same poll index (cancel.poll), 0 = closed before the call.
+
+var vCancel struct {
+	ch     chan struct{}
+	closed bool
+	polls  int
+}
+
+func vCloseChan(counter *int) chan struct{} {
+	vCancel.ch = make(chan struct{})
+	vCancel.closed = false
+	vCancel.polls = 0
+	VerifPollHook = func(ch chan struct{}) {
+		if ch != vCancel.ch {
+			return
+		}
+		if vIn("cancel.armed") != 0 && !vCancel.closed && uint64(vCancel.polls) == vIn("cancel.poll") {
+			close(vCancel.ch)
+			vCancel.closed = true
+		}
+		vCancel.polls++
+	}
+	return vCancel.ch
+}
+
+// vCancelTick is called by the harness's stats reporter after each reported write (informational).
+func vCancelTick(writes int) {}
+
+func vCancelPolls() int { return vCancel.polls }
